@@ -6,7 +6,8 @@ import svx_grammar, svx_schema, snippets, svtree
 PARTIAL = ("run_tiles is proved for every grammar passing the static check and every behaviour of the span primitives / hand "
            "lexers (they are oracles of the interpreter); the regenerated grammar passes the check by computation. Not "
            "proved: that each of the 24 hand lexers returns exactly the span it consumed (pinned by source hash, tied by the "
-           "tiling oracle on real trees), non-emptiness of leaves, and get_str's slice arithmetic on the real String")
+           "tiling oracle on real trees) and get_str's slice arithmetic on the real String; non-emptiness of leaves is proved "
+           "(C01_leaves_nonempty) under the oracle hypothesis that primitives consume at least one byte when they succeed")
 
 HAND = [
     ("sv", "module m; initial begin x = obj.a().b().c(); y = o.f(1).g(2, 3).h().i(); end endmodule\n"),
